@@ -69,3 +69,14 @@ func VerifQueueLen(s *Stream, cid CID) int {
 	}
 	return -1
 }
+
+// VerifConverters returns the stream's rtp demuxer, flv muxer and ts muxer
+// objects (nil interface values when absent), i.e. the obj values their
+// "*.before-pop" schedule points report.
+func VerifConverters(s *Stream) (demuxer, flvMuxer, tsMuxer interface{}) {
+	demuxer, flvMuxer = s.rtpDemuxer, s.flvMuxer
+	if s.tsMuxer != nil {
+		tsMuxer = s.tsMuxer
+	}
+	return
+}
